@@ -3,6 +3,6 @@
    inductive.  No Extract Constant. *)
 From Coq Require Extraction.
 From Coq Require Import ExtrOcamlBasic.
-From TlsModel Require Import Main.
+From TlsModel Require Import Main GenMain.
 Extraction Language OCaml.
-Extraction "model.ml" run_line entry_names b2n n2b.
+Extraction "model.ml" run_line entry_names b2n n2b gen_lines family_names.
